@@ -22,7 +22,7 @@ from pathlib import Path
 from typing import Any, Callable, Iterable
 
 VERIF = Path(__file__).resolve().parent.parent
-LEAN_DIR = VERIF / "lean"
+LEAN_DIR = Path(os.environ.get("PAMIQ_LEAN_DIR", str(VERIF / "lean")))
 REPO = Path(os.environ.get("PAMIQ_REPO", "/repo"))
 ALLOWED_AXIOMS = {"propext", "Classical.choice", "Quot.sound"}
 FORBIDDEN = re.compile(
